@@ -143,6 +143,12 @@ def drive(v, prop, tier, tag):
         # eligible one (two entries per file + fragmentation threshold; one entry per file + dead bytes)
         dfile, nd = gen_behaviours(v, tier, tag + "-deep", sync, configs="MCConfigsDeepSync" if sync == "always" else "MCConfigsDeep",
                                    maxops=4 if q else 5)
+        if q:
+            # quick: a seeded third of the deeper set
+            lines = open(dfile).read().splitlines()
+            keep = [lines[0]] + [x for n, x in enumerate(lines[1:]) if (n + seed()) % 3 == 0]
+            open(dfile, "w").write("\n".join(keep) + "\n")
+            nd = len(keep) - 1
         sets.append(("generated-deep", dfile, nd, 10**6))
     if mode == "fault":
         sets.append(("random-wide", *random_behaviours(tag, sync, 10 if q else 60, 12, "wide"), 40))
